@@ -10,6 +10,7 @@ func VH_C11_InfoAndDownloadAgree() {
 	e := vNewEnv()
 	e.cc.Account.Access = hotline.AccessBitmap{0xff, 0xff, 0xff, 0xff, 0xff, 0xff, 0xff, 0xff}
 	vAssume(e.fs.exists && !e.fs.isDir)
+	vAssume(!(e.fs.infoFork && e.fs.infoSaysFldr)) // a stored info fork that contradicts the entry's kind is a corrupt store
 	size := vInt("file_size")
 	vAssume(0 <= size && size < 1<<32)
 	e.fs.size = int64(size)
